@@ -1,6 +1,6 @@
 // instrument rewrites one Go source file of authservice for the simulator:
 //   - a simsync.Yield(<line>) before every statement of every function body (nested blocks included),
-//   - sync.Mutex / sync.RWMutex types replaced by simsync.Mutex / simsync.RWMutex,
+//   - sync.Mutex / sync.RWMutex / sync.Once types replaced by simsync.Mutex / simsync.RWMutex / simsync.Once,
 //   - `go f(x)` replaced by simsync.Go(func() { f(x) }),
 //   - the build tag `verif` added, the import of simsync added, an unused `sync` import dropped.
 // The rewrite is generic: it knows nothing about what the functions do, so it applies to an edited
@@ -221,7 +221,7 @@ func main() {
 	ast.Inspect(f, func(n ast.Node) bool {
 		if se, ok := n.(*ast.SelectorExpr); ok {
 			if id, ok := se.X.(*ast.Ident); ok && id.Name == "sync" {
-				if se.Sel.Name == "Mutex" || se.Sel.Name == "RWMutex" {
+				if se.Sel.Name == "Mutex" || se.Sel.Name == "RWMutex" || se.Sel.Name == "Once" {
 					id.Name = "simsync"
 				} else {
 					usesSync = true
